@@ -46,6 +46,20 @@ def apply_op(api, sched, members, tag, info, ops, maxk=2, variants=True):
         check_after(sched, want_members, None, want_up, info)
         api.note("nt")
         return want_members
+    if op == "add":
+        # not surgery itself: a job is added between two operations (the documented way to grow a scheduler)
+        if not members:
+            return members
+        r = members[api.choice("add_after" + tag, len(members))]
+        new = GJob("n" + tag, 6 - int(tag))
+        new.requires(r)
+        sched.add(new)
+        info["ops"][-1] = "add(%s requiring %s)" % (new, r)
+        want_members = members + [new]
+        want_req = {j: set(req[j]) for j in members}
+        want_req[new] = {r}
+        check_after(sched, want_members, want_req, None, info)
+        return want_members
     if op == "keep_only":
         subs = subsets(members, len(members))
         R = subs[api.choice("R" + tag, len(subs))]
@@ -116,7 +130,7 @@ def check_after(sched, want_members, want_req, want_up, info):
         fail("C18: check_cycles() is False after %s" % info["ops"][-1], info)
 
 
-def surgery_harness(name, n, nops, ops, perm_mode="id", maxk=2, variants=True, warm=False):
+def surgery_harness(name, n, nops, ops, perm_mode="id", maxk=2, variants=True, warm=False, sequence=False):
     def fn(api):
         jobs = make_jobs(api, n, perm_mode)
         for i, a in enumerate(jobs):
@@ -133,9 +147,9 @@ def surgery_harness(name, n, nops, ops, perm_mode="id", maxk=2, variants=True, w
             sched.successors_downstream(*jobs[:1])
             list(sched.exit_jobs())
         for k in range(nops):
-            members = apply_op(api, sched, members, str(k), info, ops, maxk, variants)
+            members = apply_op(api, sched, members, str(k), info, [ops[k]] if sequence else ops, maxk, variants)
         api.sample(info)
-    return Harness(name, fn, bounds={"nodes": n, "operations_in_sequence": nops, "operations": ops,
+    return Harness(name, fn, bounds={"nodes": n, "operations_in_sequence": nops, "operations": ops, "in_that_order": sequence,
                                      "starts_ends": "subsets of members of size <= %d%s" % (
                                          maxk, ", lists or one-shot iterators, empty collections passed or omitted"
                                          if variants else ", passed as lists"),
@@ -147,8 +161,10 @@ def harnesses(tier):
     if tier == "quick":
         return [surgery_harness("dag4-one-op", 4, 1, ["bypass", "keep_only", "between"], "id", 2, False),
                 surgery_harness("dag3-two-ops", 3, 2, ["bypass", "keep_only", "between"], "id", 1, False),
-                surgery_harness("dag4-between-iterators", 4, 1, ["between"], "id", 2, True),
-                surgery_harness("dag4-queries-then-two-bypasses", 4, 2, ["bypass"], "id", 1, False, warm=True)]
+                surgery_harness("dag4-between-iterators", 4, 1, ["between"], "id", 1, True),
+                surgery_harness("dag4-queries-then-two-bypasses", 4, 2, ["bypass"], "id", 1, False, warm=True),
+                surgery_harness("dag3-queries-bypass-add-between", 3, 3, ["bypass", "add", "between"], "id", 1, False,
+                                warm=True, sequence=True)]
     return [surgery_harness("dag5-bypass", 5, 1, ["bypass"], "two"),
             surgery_harness("dag5-keep-only-between", 5, 1, ["keep_only", "between"]),
             surgery_harness("dag4-two-ops", 4, 2, ["bypass", "between"], warm=True),
